@@ -261,8 +261,9 @@ class Balancer:
         if t.args[0].cardinality > 1 and t.args[1].cardinality > 1:
             log.debug("can't do anything because we have multiple multivalued guys")
             return False
-        if t.op == "If":
-            log.debug("can't handle If")
+        if t.op in ("If", "And", "Or"):
+            # (a disjunction / conjunction that could not be unpacked is not a comparison to balance)
+            log.debug("can't handle %s", t.op)
             return False
         return True
 
